@@ -211,6 +211,14 @@ def _count_writes(stmts, is_write):
 ROWWISE_METHODS = {"predict", "transform", "apply", "predict_proba", "decision_function"}
 
 
+def _per_row_array(fn, name, rows):
+    import ast as _ast
+    defs = [x.value for x in _ast.walk(fn.node) if isinstance(x, _ast.Assign) and len(x.targets) == 1 and
+            isinstance(x.targets[0], _ast.Name) and x.targets[0].id == name]
+    return len(defs) == 1 and isinstance(defs[0], _ast.Call) and isinstance(defs[0].func, _ast.Attribute) and \
+        defs[0].func.attr in ROWWISE_METHODS and [_ast.unparse(x) for x in defs[0].args] == [rows]
+
+
 def _zip_members(fn, loop, rows, seeds):
     """(index name, row name, seed name) when the loop runs over zip(...) / enumerate(zip(...)) of the rows, the seeds
     and per-row arrays computed from the rows (one entry per row, e.g. kmeans.predict(rows)); else None"""
@@ -276,6 +284,12 @@ def row_loop_info(fn):
             info.row, info.seed = tg.elts[1].elts[0].id, tg.elts[1].elts[1].id
         elif its == "range(len(%s))" % rows and isinstance(tg, _ast.Name):
             info.idx = tg.id
+        elif isinstance(it, _ast.Call) and _ast.unparse(it.func) == "enumerate" and len(it.args) == 1 and \
+                isinstance(it.args[0], _ast.Name) and names and len(names) == 2 and all(names) and \
+                _per_row_array(fn, it.args[0].id, rows):
+            # for index, label in enumerate(<one entry per row, computed from the rows>): the row is rows[index]
+            info.idx = names[0]
+            info.others = {names[1]: it.args[0].id}
         elif its == rows and isinstance(tg, _ast.Name):
             info.row = tg.id
         else:
